@@ -230,6 +230,20 @@ pub fn run(args: &Args) {
             tr.ev(json!({"ev":"Skip","pair":format!("GcPcSaftFunctional/GcPcSaft:{}", names.join("+")),"why":"parameters"}));
         }
     }
+    // the same with the segment table the binary segment records belong to (rehner2023): aromatics have binary records between segments of ONE molecule,
+    // which the equation of state applies across components only
+    for names in [vec!["toluene"], vec!["ethylbenzene", "hexane"], vec!["benzene", "toluene"], vec!["ethanol", "toluene"]] {
+        let args3 = (ppath("pcsaft/gc_substances.json"), ppath("pcsaft/rehner2023_hetero.json"), Some(ppath("pcsaft/rehner2023_hetero_binary.json")));
+        let pe = GcPcSaftEosParameters::from_json_segments(&names, args3.0.clone(), args3.1.clone(), args3.2.clone(), IdentifierOption::Name);
+        let pf = GcPcSaftFunctionalParameters::from_json_segments(&names, args3.0, args3.1, args3.2, IdentifierOption::Name);
+        if let (Ok(pe), Ok(pf)) = (pe, pf) {
+            let eos = Arc::new(GcPcSaft::new(Arc::new(pe)));
+            let f = Arc::new(GcPcSaftFunctional::new(Arc::new(pf)));
+            pair(&mut tr, &format!("GcPcSaftFunctional/GcPcSaft(rehner2023 + binary):{}", names.join("+")), "bulk", &f, &eos, 500.0, &mut rng, k);
+        } else {
+            tr.ev(json!({"ev":"Skip","pair":format!("GcPcSaftFunctional/GcPcSaft(rehner2023 + binary):{}", names.join("+")),"why":"parameters"}));
+        }
+    }
     // PeTS, SAFT-VRQ Mie
     {
         let p = Arc::new(from_json_str::<PetsParameters>(zoo::PETS2, &[((0, 1), r#"{"k_ij":0.02}"#)]));
